@@ -99,7 +99,9 @@ fn get_server_values_impl(socket: &mut UdpSocket) -> GDResult<HashMap<String, St
 }
 
 fn extract_players(server_vars: &mut HashMap<String, String>, players_maximum: u32) -> GDResult<Vec<Player>> {
-    let mut players_data: Vec<HashMap<String, String>> = Vec::with_capacity(players_maximum as usize);
+    // Not pre-allocated from `players_maximum`: it comes from the server and can be anything up to u32::MAX
+    let _ = players_maximum;
+    let mut players_data: Vec<HashMap<String, String>> = Vec::new();
 
     server_vars.retain(|key, value| {
         let split: Vec<&str> = key.split('_').collect();
